@@ -2,6 +2,9 @@
 # Regenerates MANIFEST.json from the table below (single source of truth).
 import json
 CHECKS = {
+ "C03": dict(cat="fault_enumeration", technique="runtime monitor: exhaustive single-fault enumeration over the recorded load trace + random combinations, differential against the fault-free run",
+   text="For every generated module world and registry world the fault-free load trace is recorded, then one real build is run per (load call x fault kind): 16 loader response kinds and 21 package-metadata / version-manifest corruptions, plus random 2-3 fault combinations and npm resolver failures (per requirement, dependency graph). Oracles: no panic, serialisable with no pending entry, every requested specifier settled, imported failures carry a referrer, entries not depending on a faulted call unchanged, npm failures observable. ~20 000 faulted builds quick.",
+   note="debug-assertion panic for a module answered with a final specifier inside the registry is a known finding; release-profile behaviour is exercised by the thorough tier", ref="§3 C03"),
  "C06": dict(cat="exploration", technique="runtime monitor: selection function vs four-tier reference model (exhaustive block + random), registry-world builds vs request-replay model",
    text="resolve_version is called directly and compared with a model of the four-tier rule over an exhaustive block (7^4 registry configurations x 14 requirements x all already-selected and cached subsets x cutoff x 4 exclusion modes = 44M cases; quick takes a seeded 1/37 stride) and a random block on an 8-version universe; at graph level thousands of generated registry worlds (several requirements per package arriving in different orders, lockfile-seeded selections, yanked fallbacks, cutoff dates, cache-busting restarts, prefer_cached mode, tags, unknown packages) are built for real and mappings(), redirects, error kinds and used_yanked_packages() compared with a model that replays requests in FIFO order.",
    note="deno_semver's matching is trusted (used by the model)", ref="§4 C06"),
